@@ -157,7 +157,8 @@ def run_case(case):
     spec, opts, files, tdir = build(case)
     sandbox.build_world(spec)
     before = sandbox.snapshot()
-    ref = runner.run(spec, "trash-put", opts + ["--"] + files)
+    # (the clock advances by 7 s at every reading: a run takes time, two readings differ)
+    ref = runner.run(spec, "trash-put", opts + ["--"] + files, plan={"clock_step": 7})
     n = ref.n_mut
     muts = [t for t in ref.trace if t[1]]
     scen = "%s/%s/%s" % (case["target"], case["state"], "+".join(sorted(set(e["kind"] for e in case["ents"]))))
@@ -173,7 +174,7 @@ def run_case(case):
     judge(out, before, sandbox.snapshot(), files, tags, "no crash")
     for k in range(1, n + 1):
         sandbox.build_world(spec)
-        r = runner.run(spec, "trash-put", opts + ["--"] + files, plan={"crash_at": k})
+        r = runner.run(spec, "trash-put", opts + ["--"] + files, plan={"crash_at": k, "clock_step": 7})
         if r.code != 137:
             out.fail("crash_not_delivered", "run with crash_at=%d exited %d (nondeterministic op "
                      "sequence?)" % (k, r.code), **tags)
@@ -195,7 +196,7 @@ def run_case(case):
             if op not in ("unlink", "remove", "rmdir", "rename", "replace"):
                 continue
             sandbox.build_world(spec)
-            r = runner.run(spec, "trash-put", opts + ["--"] + files, plan={"crash_after": k})
+            r = runner.run(spec, "trash-put", opts + ["--"] + files, plan={"crash_after": k, "clock_step": 7})
             if r.code != 137:
                 continue
             after = sandbox.snapshot()
@@ -212,7 +213,7 @@ def run_case(case):
         for k in range(1, n + 1):
             for when in ("before", "after"):
                 sandbox.build_world(spec)
-                r = runner.run(spec, "trash-put", opts + ["--"] + files, plan={"interrupt": [k, when]})
+                r = runner.run(spec, "trash-put", opts + ["--"] + files, plan={"interrupt": [k, when], "clock_step": 7})
                 after = sandbox.snapshot()
                 op = muts[k - 1][2] if k - 1 < len(muts) else "?"
                 judge(out, before, after, files, dict(tags, op=op, kill="sigint"),
